@@ -621,3 +621,181 @@ class SplitOracle(Oracle):
             if exc is not None and any(v > M for v in vs) and type(exc).__name__ != "InvalidOperationError":
                 # only meaningful if nothing else was wrong with the call; ignored otherwise
                 pass
+
+
+# ------------------------------------------------------------------ C13 / C10 (EVO script commands)
+def decode_selection(s: str):
+    """EVOware rule: 2 hex digits columns, 2 hex digits rows, 7 wells per character (LSB first, +48), column-major."""
+    cols, rows = int(s[0:2], 16), int(s[2:4], 16)
+    sel = []
+    n = rows * cols
+    for k, ch in enumerate(s[4:]):
+        v = ord(ch) - 48
+        for b in range(7):
+            idx = 7 * k + b
+            if v >> b & 1:
+                if idx >= n:
+                    raise ValueError("padding bit set")
+                sel.append((idx % rows, idx // rows))
+    if len(s) != 4 + (n + 6) // 7:
+        raise ValueError("selection string length")
+    return rows, cols, sel
+
+
+class EvoOracle(Oracle):
+    name = "evo"
+
+    def __init__(self, prog):
+        super().__init__(prog)
+        self.prev = None
+
+    def expressible(self, op, L):
+        wells = flatF(op["wells"])
+        tips = op["tips"]
+        if len(wells) != len(tips):
+            return False
+        if isinstance(op["vol"], list) and len(op["vol"]) != len(wells):
+            return False
+        cols = {w[1:] for w in wells}
+        if len(cols) > 1:
+            return False
+        if any(not (a < b) for a, b in zip(wells, wells[1:])):
+            return False
+        nums = []
+        for t in tips:
+            if t[0] == "int":
+                if not 1 <= t[1] <= 8:
+                    return False
+                nums.append(t[1])
+            elif t[0] == "member":
+                if t[1] == -1:
+                    return False
+                nums.append(int(math.log2(t[1])) + 1)
+            else:
+                return False
+        if len(set(nums)) != len(nums):
+            return False
+        g, s = op["grid"], op["site"]
+        if not (isinstance(g, int) and 1 <= g <= 67 and isinstance(s, int) and 1 <= s <= 128):
+            return False
+        if op.get("arm", 0) not in (0, 1):
+            return False
+        vols = op["vol"] if isinstance(op["vol"], list) else [op["vol"]]
+        M = F(self.prog["cfg"]["max_volume"])
+        if any(F(v) < 0 or F(v) > M for v in vols):
+            return False
+        return True
+
+    def __call__(self, run, i, op, exc):
+        cur = [[q(v) for v in L.volumes.flatten()] for L in run.labs]
+        prev = self.prev if self.prev is not None else [list(st["vols"]) for st in run.init_state["labs"]]
+        self.prev = cur
+        k = op["op"]
+        if k == "evo_wash":
+            self.check_wash(run, i, op, exc)
+            return
+        if k not in ("evo_aspirate", "evo_dispense"):
+            return
+        L = run.labs[op["lab"]]
+        if exc is None and not self.expressible(op, L):
+            self.fail(f"C13:inexpressible-call-accepted:{k}", f"op {i}: {k}(wells={flatF(op['wells'])}, tips={op['tips']}, vol={op['vol']}, grid={op['grid']}, site={op['site']}, arm={op.get('arm', 0)}) accepted", i)
+            return
+        if exc is not None:
+            return
+        cmd = str(run.wl[-1])
+        name = "Aspirate" if k == "evo_aspirate" else "Dispense"
+        import re
+        m = re.fullmatch(r'B;' + name + r'\((\d+),"([^"]*)",((?:(?:"[^"]*"|0),){8})0,0,0,0,(\d+),(\d+),1,"([^"]*)",0,(\d+)\);', cmd)
+        if not m:
+            self.fail(f"C13:command-format:{k}", f"op {i}: {cmd!r}", i)
+            return
+        mask, lc, slots, grid, site, sel, arm = int(m.group(1)), m.group(2), m.group(3), int(m.group(4)), int(m.group(5)), m.group(6), int(m.group(7))
+        slot_vals = [None if s == "0" else F(s.strip('"')) for s in slots.rstrip(",").split(",")]
+        nums = [t[1] if t[0] == "int" else int(math.log2(t[1])) + 1 for t in op["tips"]]
+        want_mask = 0
+        for t in nums:
+            want_mask |= 1 << (t - 1)
+        if mask != want_mask:
+            self.fail(f"C10:evo-mask:{k}", f"op {i}: tips {nums} emitted as mask {mask}, expected {want_mask}", i)
+            return
+        for t in range(8):
+            if (slot_vals[t] is not None) != bool(mask >> t & 1):
+                self.fail(f"C10:evo-slot:{k}", f"op {i}: volume slot {t + 1} does not match the tip mask {mask}: {cmd!r}", i)
+                return
+        if lc != op["liquid_class"] or arm != op.get("arm", 0) or grid != op["grid"] or site != op["site"] - 1:
+            self.fail(f"C13:command-arguments:{k}", f"op {i}: {cmd!r} vs liquid_class={op['liquid_class']!r} arm={op.get('arm', 0)} grid={op['grid']} site={op['site']}", i)
+            return
+        try:
+            rows, cols, selected = decode_selection(sel)
+        except ValueError as e:
+            self.fail(f"C12:selection-string:{k}", f"op {i}: {sel!r}: {e}", i)
+            return
+        if (rows, cols) != (L.n_rows, L.n_columns):
+            self.fail(f"C12:selection-dimensions:{k}", f"op {i}: {sel!r} decodes to {rows}x{cols}, labware is {L.n_rows}x{L.n_columns}", i)
+            return
+        selected.sort(key=lambda rc: (rc[1], rc[0]))
+        tips_sorted = [t for t in range(8) if mask >> t & 1]
+        if len(selected) != len(tips_sorted):
+            self.fail(f"C13:wells-tips-count:{k}", f"op {i}: {len(selected)} wells selected for {len(tips_sorted)} tips", i)
+            return
+        # change per real well implied by the command
+        delta = {}
+        ncols = L.volumes.shape[1]
+        for (r, c), t in zip(selected, tips_sorted):
+            wid_ = f"{'ABCDEFGHIJKLMNOPQRSTUVWXYZ'[r]}{c + 1:02d}"
+            rr, cc = L.indices[wid_]
+            wi = rr * ncols + cc
+            delta[wi] = delta.get(wi, F(0)) + slot_vals[t]
+        li = op["lab"]
+        for wi in range(len(cur[li])):
+            tracked = (prev[li][wi] - cur[li][wi]) if k == "evo_aspirate" else (cur[li][wi] - prev[li][wi])
+            cmdv = delta.get(wi, F(0))
+            n = sum(1 for (r, c) in selected if L.indices[f"{'ABCDEFGHIJKLMNOPQRSTUVWXYZ'[r]}{c + 1:02d}"] == (wi // ncols, wi % ncols))
+            if abs(tracked - cmdv) > F(1, 200) * max(1, n) + EPS:
+                self.fail(f"C13:command-disagrees-with-tracking:{k}", f"op {i}: well {wi}: tracking changed it by {float(tracked)}, the command moves {float(cmdv)}: {cmd!r}", i)
+                return
+
+    def check_wash(self, run, i, op, exc):
+        def rng_ok(v, lo, hi):
+            return isinstance(v, int) and not isinstance(v, bool) and lo <= v <= hi
+        nums = []
+        tips_ok = True
+        for t in op["tips"]:
+            if t[0] == "int" and 1 <= t[1] <= 8:
+                nums.append(t[1])
+            elif t[0] == "member" and t[1] > 0:
+                nums.append(int(math.log2(t[1])) + 1)
+            else:
+                tips_ok = False
+        if len(set(nums)) != len(nums):
+            tips_ok = False
+        num_ok = lambda v: not isinstance(v, str) and v is not None and 0 <= F(v) <= 100
+        ok = (tips_ok and rng_ok(op["waste_grid"], 1, 67) and rng_ok(op["waste_site"], 1, 128) and rng_ok(op["cleaner_grid"], 1, 67)
+              and rng_ok(op["cleaner_site"], 1, 128) and op.get("arm", 0) in (0, 1) and num_ok(op["waste_vol"]) and rng_ok(op["waste_delay"], 0, 1000)
+              and num_ok(op["cleaner_vol"]) and rng_ok(op["cleaner_delay"], 0, 1000) and rng_ok(op["airgap"], 0, 100)
+              and rng_ok(op["airgap_speed"], 1, 1000) and rng_ok(op["retract_speed"], 1, 100) and rng_ok(op["fastwash"], 0, 1)
+              and rng_ok(op["low_volume"], 0, 1))
+        if exc is None and not ok:
+            self.fail("C13:evo_wash-out-of-range-accepted", f"op {i}: evo_wash({ {k: v for k, v in op.items() if k != 'op'} }) accepted", i)
+            return
+        if exc is not None:
+            if ok:
+                self.fail("C13:evo_wash-valid-call-rejected", f"op {i}: evo_wash rejected a valid call: {exc!r}", i)
+            return
+        mask = 0
+        for t in nums:
+            mask |= 1 << (t - 1)
+        def one_dec(v):
+            if isinstance(v, int):
+                return str(int(v))
+            x = F(v) * 10
+            fl = x.numerator // x.denominator
+            d = x - fl
+            r = fl if d < F(1, 2) else fl + 1 if d > F(1, 2) else (fl if fl % 2 == 0 else fl + 1)
+            return f"{r // 10}.{r % 10}"
+        want = (f'B;Wash({mask},{op["waste_grid"]},{op["waste_site"] - 1},{op["cleaner_grid"]},{op["cleaner_site"] - 1},'
+                f'"{one_dec(op["waste_vol"])}",{op["waste_delay"]},"{one_dec(op["cleaner_vol"])}",{op["cleaner_delay"]},{op["airgap"]},'
+                f'{op["airgap_speed"]},{op["retract_speed"]},{op["fastwash"]},{op["low_volume"]},1000,{op.get("arm", 0)});')
+        got = str(run.wl[-1])
+        if got != want:
+            self.fail("C13:evo_wash-parameters", f"op {i}: emitted {got!r}, documented order gives {want!r}", i)
